@@ -11,6 +11,22 @@ import re
 
 
 PROPS = {
+    "C12": {
+        "coq_targets": ["theories/Lang/Typing.vo"],
+        "harness": ["c12"],
+        "tables": True,
+        "disagreement_is_violation": True,
+        "axioms": [],
+        "trusted_base": COMMON_TB + [
+            "Generated/Tables.v cast_binary_op is dumped from the checker's own binary_cast on every run (harness/src/tables.rs); Lang/Ast.etype and Lang/Typing.wt_stmt are hand-written mirrors of the checker's expression typing and of its kind rules for the core statements",
+            "Lang/Sem.v + Val/Arith2.v as the meaning of expressions (tied to the VM by the C01 correspondence at value level and program level)",
+            "harness/src/c12.rs: ill-typing edits on syntax trees, line edits on procedural programs with the expected error family and row, the renaming map, classification of checker errors into families",
+            "NOT modelled: the checker itself (rusty_linter converter and post-linters) - its verdict is an observation compared with wt_program; built-in functions, procedures and arrays are outside the typing theorems",
+        ],
+        "assumptions": [
+            "statements that convert external data (READ, INPUT, PRINT USING) are excluded as the property says",
+        ],
+    },
     "C14": {
         "coq_targets": ["theories/Lang/ConstProofs.vo"],
         "harness": ["c14"],
